@@ -8,6 +8,8 @@ mod gw;
 mod gwgen;
 mod tk;
 mod tkgen;
+mod gs;
+mod gsgen;
 
 use common::*;
 use std::io::Write;
@@ -20,6 +22,11 @@ impl World for tk::TkWorld {
         tk::TkWorld::exec(self, toks)
     }
 }
+impl World for gs::GsWorld {
+    fn exec(&mut self, toks: &[&str]) -> (String, String) {
+        gs::GsWorld::exec(self, toks)
+    }
+}
 impl World for gw::GwWorld {
     fn exec(&mut self, toks: &[&str]) -> (String, String) {
         gw::GwWorld::exec(self, toks)
@@ -30,6 +37,7 @@ pub fn new_world(cluster: &str) -> Box<dyn World> {
     match cluster {
         "gw" => Box::new(gw::GwWorld::new()),
         "tk" => Box::new(tk::TkWorld::new()),
+        "gs" => Box::new(gs::GsWorld::new()),
         other => panic!("unknown cluster {other}"),
     }
 }
@@ -89,6 +97,7 @@ fn main() {
                 "C09" => gwgen::gen_c09(&mut run, seed, thorough),
                 "C13" => gwgen::gen_c13(&mut run, seed, thorough),
                 "C12" => tkgen::gen_c12(&mut run, seed, thorough),
+                "C14" => gsgen::gen_c14(&mut run, seed, thorough),
                 other => {
                     eprintln!("no generator for {other}");
                     std::process::exit(2);
